@@ -231,7 +231,13 @@ TRepoSyncAll == IsEvent("RepoSyncAll") /\ Ok /\ RepoSyncAll /\ Projected(Line.ab
 TAddForeign == IsEvent("AddForeign") /\ Ok
           /\ AddForeign(Args.c, Args.p, SetOf(Args.res)) /\ Projected(Line.abs)
 TFList == IsEvent("FList") /\ Ok /\ FList(Args.c) /\ Projected(Line.abs)
-FLimit == IF Args.nolim THEN Offer(Args.c) ELSE SetOf(Args.lim)
+\* (a limit that names the IPv4 family only leaves the other families as
+\* offered)
+V4Atoms == {"p1", "p2", "p3"}
+FLimit == IF Args.nolim THEN Offer(Args.c)
+          ELSE IF "fam" \in DOMAIN Args /\ Args.fam = "v4"
+          THEN (Offer(Args.c) \ V4Atoms) \cup SetOf(Args.lim)
+          ELSE SetOf(Args.lim)
 TFIssue == IsEvent("FIssue") /\ (Ok \/ IsError) /\ FCall(Args.c)
           /\ (Ok <=> FIssueOk(Args.c, FLimit))
           /\ FIssue(Args.c, Args.x, FLimit) /\ Projected(Line.abs)
